@@ -60,7 +60,7 @@ fn main() {
         ("gen", "C14") => c14::gen(&a),
         ("gen", "C16") => c16::gen(&a),
         ("gen", "C19") => c19::gen(&a),
-        ("gen", "VM") => vmrun::gen(&a),
+        ("gen", "VM") | ("gen", "C03") => vmrun::gen(&a),
         ("replay", "VM") => vmrun::replay(&a),
         _ => { eprintln!("unknown command/property"); std::process::exit(2); }
     }
